@@ -1693,7 +1693,9 @@ class Trimesh(Geometry3D):
         tree : scipy.spatial.cKDTree
           Contains mesh.vertices
         """
-        return cKDTree(self.vertices.view(np.ndarray))
+        # copy the points: the tree would otherwise be built on the buffer
+        # of `self.vertices`, and it can outlive it in the cache of a copy
+        return cKDTree(self.vertices.view(np.ndarray), copy_data=True)
 
     def remove_degenerate_faces(self, height: float = tol.merge) -> None:
         """
